@@ -496,6 +496,78 @@ fn main() {
         CommandMessageDecoder::<Text, Value>::default()
     );
 
+    // ---- routed request / response frames longer than the 64 KiB the decoders reserve at a time ----
+    // (Model/Codec.v covers these codecs, and ProtoFrameProofs every fragmentation; frames of this size are not
+    // evaluated inside Coq, so they are fed to the real decoders here)
+    {
+        use swimos_messages::protocol::{Notification, Operation, RawRequestMessageDecoder, RawRequestMessageEncoder, RawResponseMessageDecoder, RawResponseMessageEncoder, RequestMessage, ResponseMessage};
+        use swimos_api::address::RelativeAddress;
+        let origin = Uuid::from_u128(0x1234_5678_9abc_def0);
+        for (li, len) in [60_000usize, 65_500, 65_504, 65_536, 66_000, 100_000, 300_000].iter().enumerate() {
+            let body: Vec<u8> = (0..*len).map(|i| b'a' + ((i * 7 + li) % 23) as u8).collect();
+            for chunk in [1000usize, 4096, 8192, 65_536, 70_000] {
+                evals += 1;
+                *kinds.entry("routed_large_frames:chunkings".into()).or_default() += 1;
+                // request: a command with the large body, then a sync
+                let mut bytes = BytesMut::new();
+                let mut ends = vec![];
+                let msgs = vec![
+                    RequestMessage { origin, path: RelativeAddress::new("/node", "lane"), envelope: Operation::Command(body.as_slice()) },
+                    RequestMessage { origin, path: RelativeAddress::new("/node", "lane"), envelope: Operation::Sync },
+                ];
+                for m in &msgs {
+                    RawRequestMessageEncoder.encode(m, &mut bytes).unwrap();
+                    ends.push(bytes.len());
+                }
+                let chunks: Vec<Vec<u8>> = bytes.chunks(chunk).map(|c| c.to_vec()).collect();
+                let r = catch(AssertUnwindSafe(|| run(&mut RawRequestMessageDecoder, &chunks, 10_000, Some(&ends))));
+                match r {
+                    Ok(Ok((out, left))) => {
+                        let ok = out.len() == 2
+                            && left == 0
+                            && matches!(&out[0].envelope, Operation::Command(b) if b.as_ref() == body.as_slice())
+                            && matches!(&out[1].envelope, Operation::Sync)
+                            && out.iter().all(|m| m.origin == origin && m.path.node.as_str() == "/node" && m.path.lane.as_str() == "lane");
+                        if !ok {
+                            failures.push(format!("routed request frames, command body of {} bytes in reads of {}: {} messages came out, {} bytes left, or they differ from what was written", len, chunk, out.len(), left));
+                        } else {
+                            nontrivial += 1;
+                        }
+                    }
+                    Ok(Err(e)) => failures.push(format!("routed request frames, command body of {} bytes in reads of {}: {}", len, chunk, e)),
+                    Err(m) => failures.push(format!("routed request frames, command body of {} bytes in reads of {}: the decoder panicked: {}", len, chunk, m)),
+                }
+                // response: an event with the large body, then synced
+                let mut bytes = BytesMut::new();
+                let mut ends = vec![];
+                let msgs: Vec<ResponseMessage<&str, &[u8], &[u8]>> = vec![
+                    ResponseMessage { origin, path: RelativeAddress::new("/node", "lane"), envelope: Notification::Event(body.as_slice()) },
+                    ResponseMessage { origin, path: RelativeAddress::new("/node", "lane"), envelope: Notification::Synced },
+                ];
+                for m in &msgs {
+                    RawResponseMessageEncoder.encode(m, &mut bytes).unwrap();
+                    ends.push(bytes.len());
+                }
+                let chunks: Vec<Vec<u8>> = bytes.chunks(chunk).map(|c| c.to_vec()).collect();
+                let r = catch(AssertUnwindSafe(|| run(&mut RawResponseMessageDecoder, &chunks, 10_000, Some(&ends))));
+                match r {
+                    Ok(Ok((out, left))) => {
+                        let ok = out.len() == 2
+                            && left == 0
+                            && matches!(&out[0].envelope, Notification::Event(b) if b.as_ref() == body.as_slice())
+                            && matches!(&out[1].envelope, Notification::Synced)
+                            && out.iter().all(|m| m.origin == origin && m.path.node.as_str() == "/node" && m.path.lane.as_str() == "lane");
+                        if !ok {
+                            failures.push(format!("routed response frames, event body of {} bytes in reads of {}: {} messages came out, {} bytes left, or they differ from what was written", len, chunk, out.len(), left));
+                        }
+                    }
+                    Ok(Err(e)) => failures.push(format!("routed response frames, event body of {} bytes in reads of {}: {}", len, chunk, e)),
+                    Err(m) => failures.push(format!("routed response frames, event body of {} bytes in reads of {}: the decoder panicked: {}", len, chunk, m)),
+                }
+            }
+        }
+    }
+
     failures.sort();
     failures.dedup();
     // no model cases: an empty shard keeps the driver's pipeline uniform
@@ -504,7 +576,7 @@ fn main() {
     let meta = J::obj(vec![
         ("evaluations", J::I(evals as i128)),
         ("distinct_nontrivial", J::I(nontrivial as i128)),
-        ("rule", J::s("downlink notification codec, real code only: sequences of 1-5 notifications (linked / synced / unlinked / event; event bodies from a pool of Recon texts including the empty body, numbers, texts, blobs, records with attributes; map events update / remove / clear / take / drop with Recon keys and values) written by DownlinkNotificationEncoder and read by ValueNotificationDecoder<Value> / MapNotificationDecoder<i64, Value> under every single split point, one byte per read and three random multi-splits: exactly the notifications written come out, each as soon as the last byte of its frame has been fed and not before, nothing is left in the buffer; two byte mutations per sequence must not panic or hang")),
+        ("rule", J::s("downlink notification codec, real code only: sequences of 1-5 notifications (linked / synced / unlinked / event; event bodies from a pool of Recon texts including the empty body, numbers, texts, blobs, records with attributes; map events update / remove / clear / take / drop with Recon keys and values) written by DownlinkNotificationEncoder and read by ValueNotificationDecoder<Value> / MapNotificationDecoder<i64, Value> under every single split point, one byte per read and three random multi-splits: exactly the notifications written come out, each as soon as the last byte of its frame has been fed and not before, nothing is left in the buffer; two byte mutations per sequence must not panic or hang; routed request / response frames (swimos_messages) with bodies of 60 000 to 300 000 bytes, i.e. around and beyond the 64 KiB the decoders reserve at a time, in reads of 1000 to 70 000 bytes")),
         ("structures", J::counts(&kinds)),
         ("samples", J::A(vec![])),
         ("direct_failures", J::A(failures.iter().take(40).map(|f| J::s(f.chars().take(600).collect::<String>())).collect())),
